@@ -358,6 +358,27 @@ def job_update_seq(j):
     return {'steps': out}
 
 
+def job_lib_updates(j):
+    """target.Update(src1); target.Update(src2); ... : no source library may be changed by being merged FROM"""
+    with warnings.catch_warnings(record=True):
+        warnings.simplefilter('always')
+        tgt = GroupLibrary.Load(j['paths'][0])
+        srcs = [GroupLibrary.Load(p) for p in j['paths'][1:]]
+
+        def snaplib(lib):
+            return {str(k): (snap(lib[k]['thermochem']) if 'thermochem' in lib[k] else None) for k in lib}
+        before = [snaplib(x) for x in srcs]
+        excs = []
+        for x in srcs:
+            try:
+                tgt.Update(x, j.get('overwrite', False))
+                excs.append(None)
+            except Exception as e:
+                excs.append(exc_name(e))
+        after = [snaplib(x) for x in srcs]
+    return {'excs': excs, 'changed': [i for i, (a, b) in enumerate(zip(before, after)) if a != b], 'target': snaplib(tgt)}
+
+
 def job_load_tree(j):
     try:
         with warnings.catch_warnings(record=True):
@@ -477,7 +498,7 @@ def job_groupdim(j):
     return res
 
 
-JOBS = {'groupdim': job_groupdim, 'yaml_roundtrip': job_yaml_roundtrip, 'update_seq': job_update_seq, 'load_tree': job_load_tree, 'estimate': job_estimate, 'libinfo': job_libinfo, 'corr': job_corr}
+JOBS = {'lib_updates': job_lib_updates, 'groupdim': job_groupdim, 'yaml_roundtrip': job_yaml_roundtrip, 'update_seq': job_update_seq, 'load_tree': job_load_tree, 'estimate': job_estimate, 'libinfo': job_libinfo, 'corr': job_corr}
 
 
 def main():
